@@ -111,7 +111,8 @@ def gen(rng, knobs):
         a = rng.choice(anchors)
         shape = rng.choice(["kinds", "authors", "authors+kinds", "tag", "ids", "window", "kinds+since", "ptag", "ptag+tag*",
                             "tag+until", "authors+tag", "kinds*", "tag*", "authors*", "tag+kinds",
-                            "ids+kinds", "authors+kinds+tag", "tag+window"])
+                            "ids+kinds", "authors+kinds+tag", "tag+window",
+                            "kinds*+until", "authors*+until", "tag*+until", "kinds*+window", "authors+kinds*+until"])
         f = {}
         b = rng.choice(anchors)
         if "kinds" in shape:
